@@ -8,7 +8,7 @@ from .common import Out, import_mbi
 ID = 'C05'
 RULE = ('Hypothesis draws a mechanism (MST, AIM, MWEM+PGM gaussian/laplace bounded/unbounded, Adaptive Grid), a dataset '
         '(2-4 attrs of size 2-4, 0..3000 skewed records), a neighbour (add / remove one record; replace one for bounded '
-        'MWEM), eps in [0.05,10], delta in {1e-9,1e-6,1e-3} (0 for pure-DP MWEM), mechanism parameters (AIM rounds and '
+        'MWEM), eps in [0.05,10], delta in {1e-14..1e-3} (0 for pure-DP MWEM, and for Gaussian MWEM where only a refusal is correct), mechanism parameters (AIM rounds and '
         'weighted workload, MWEM rounds/alpha/workload, AdaGrid threshold/targets/split) and a numpy seed (= the random '
         'outcome sequence). The mechanism runs on D with every numpy.random normal/laplace/choice call recorded, then on '
         "D' under coupled replay. Ledger: Gaussian release rho=|dx|_2^2/(2 sigma^2); Laplace eps=|dx|_1/b; selection with "
@@ -84,6 +84,17 @@ def run_case(case):
     out = Out()
     out.classes = ['mech:' + case['mech'] + (':' + case['noise'] + (':bounded' if case['bounded'] else '') if case['mech'] == 'mwem' else ''),
                    'neighbour:' + case['neighbour']]
+    if case['mech'] == 'mwem' and case['noise'] == 'gaussian' and case['delta'] == 0:
+        # (eps, 0) with Gaussian noise: the only correct outcomes are a refusal before anything is released, or no
+        # data-dependent Gaussian release at all
+        try:
+            r = mech.coupled(case)
+        except AssertionError:
+            out.classes.append('delta0_gaussian_refused'); return out
+        rho, eps_pure, nrel, nsel, problems, tight = ledger(case, r)
+        if rho > 0:
+            return out.fail('overspend', 'mwem: Gaussian releases / zCDP selections (rho=%.6g over %d releases, %d selections) under a pure-DP budget (eps=%.4g, delta=0): no finite epsilon covers Gaussian noise at delta=0' % (rho, nrel, nsel, case['eps']))
+        out.classes.append('delta0_gaussian_ran'); return out
     r = mech.coupled(case)
     pure = case['mech'] == 'mwem' and case['noise'] == 'laplace'
     rho, eps_pure, nrel, nsel, problems, tight = ledger(case, r)
@@ -112,6 +123,7 @@ def run_case(case):
     if case['mech'] == 'adagrid' and case['targets']: out.classes.append('adagrid_targets')
     if case['n'] < 30: out.classes.append('tiny_dataset')
     if case.get('prior_objects'): out.classes.append('prior_mechanism_objects')
+    if case.get('weights'): out.classes.append('weighted_records')
     return out
 
 
